@@ -43,18 +43,31 @@ func (r *cacheInvalidator) InvalidateCache(
 	refs ResponseRefs,
 	key string,
 ) {
-	deleted := map[string]struct{}{}
-	del := func(k string) {
-		if _, ok := deleted[k]; !ok {
-			_ = r.cache.Delete(k)
-			deleted[k] = struct{}{}
+	invalidate := func() {
+		deleted := map[string]struct{}{}
+		del := func(k string) {
+			if _, ok := deleted[k]; !ok {
+				_ = r.cache.Delete(k)
+				deleted[k] = struct{}{}
+			}
 		}
+		for h := range refs.ResponseIDs() {
+			del(h)
+		}
+		// the index as it is now may list more than the caller saw
+		current, _ := r.cache.GetRefs(key)
+		for h := range current.ResponseIDs() {
+			del(h)
+		}
+		r.invalidateLocationHeaders(reqURL, respHeader, del)
+		del(key)
 	}
-	for h := range refs.ResponseIDs() {
-		del(h)
+	if c, ok := r.cache.(Committer); ok {
+		// one step with respect to stores and freshenings of the same entries
+		c.Atomically(invalidate)
+		return
 	}
-	r.invalidateLocationHeaders(reqURL, respHeader, del)
-	del(key)
+	invalidate()
 }
 
 var locationHeaders = [...]string{"Location", "Content-Location"}
